@@ -9,6 +9,7 @@ from ..pairing import O2_RELATIONS, VALID_EXIT, expand_defs, Pairing, with_def_c
 from ..typestate import is_public_entry, is_clone_family, classify_set
 from . import register
 from ..inline import inlined_view
+from ..paths import expand as _expand, stmt_paths as _stmt_paths
 
 VIEW_CLASSES = {"ListView": "spydrnet/ir/views/listview.py", "SetView": "spydrnet/ir/views/setview.py",
                 "DictView": "spydrnet/ir/views/dictview.py", "OuterPinsView": "spydrnet/ir/views/outerpinsview.py"}
@@ -181,64 +182,6 @@ def _filter_excluded(fnode, ev):
             if isinstance(c, ast.Compare) and isinstance(c.ops[0], ast.NotIn):
                 return norm(c.comparators[0])
     return None
-
-
-def _expand(text, defs, depth=4):
-    for _ in range(depth):
-        before = text
-        for k in sorted(defs, key=len, reverse=True):
-            text = re.sub(r"(?<![\w.])%s(?![\w])" % re.escape(k), defs[k], text)
-        if text == before:
-            break
-    return text
-
-
-def _stmt_paths(stmts, facts, defs, flag, probe=None):
-    """enumerate the paths through a loop-free statement list: yields (outcome, facts, defs) with outcome one of
-    'fall', 'reject' (the flag was cleared), ('return', expr), 'break', 'continue'; None when a statement is outside the template"""
-    from ..pairing import alts_of
-    if not stmts:
-        yield ("fall", facts, defs)
-        return
-    st, rest = stmts[0], stmts[1:]
-
-    def cont(fa, df):
-        for r in _stmt_paths(rest, fa, df, flag, probe):
-            yield r
-    if isinstance(st, ast.Assign) and len(st.targets) == 1 and isinstance(st.targets[0], ast.Name):
-        nm = st.targets[0].id
-        if flag is not None and nm == flag and isinstance(st.value, ast.Constant) and st.value.value is False:
-            yield ("reject", facts, defs)
-            return
-        df = dict(defs)
-        df[nm] = "(%s)" % _expand(norm(st.value), defs) if not isinstance(st.value, (ast.Name, ast.Attribute, ast.Subscript)) else _expand(norm(st.value), defs)
-        for r in cont(facts, df):
-            yield r
-    elif isinstance(st, ast.If):
-        for pol, blk in ((True, st.body), (False, st.orelse)):
-            for alt in alts_of(st.test, pol):
-                fa = facts | frozenset(_expand(a, defs) for a in alt)
-                for (oc, f2, d2) in _stmt_paths(blk, fa, defs, flag, probe):
-                    if oc is None:
-                        yield (None, f2, d2)
-                    elif oc == "fall":
-                        for r in cont(f2, d2):
-                            yield r
-                    else:
-                        yield (oc, f2, d2)
-    elif isinstance(st, ast.Return):
-        yield (("return", st.value), facts, defs)
-    elif isinstance(st, ast.Break):
-        yield ("break", facts, defs)
-    elif isinstance(st, ast.Continue):
-        yield ("continue", facts, defs)
-    elif isinstance(st, (ast.Expr, ast.Pass)):
-        if probe is not None:
-            probe(st, facts)
-        for r in cont(facts, defs):
-            yield r
-    else:
-        yield (None, facts, defs)
 
 
 def _accepting_facts(P, f, elt, var, depth=0):
